@@ -152,11 +152,44 @@ func Bin(op string, a, b *Term) *Term {
 	case ">=":
 		return Bin("<=", b, a)
 	case "==", "+", "*", "&", "|", "^":
+		if op == "==" {
+			// a classification result compared with one of its codes: the comparison is the path condition of that code
+			if a.Op == "ite" && b.Op == "const" {
+				if r := iteEq(a, b); r != nil {
+					return r
+				}
+			}
+			if b.Op == "ite" && a.Op == "const" {
+				if r := iteEq(b, a); r != nil {
+					return r
+				}
+			}
+		}
 		if a.Key() > b.Key() {
 			a, b = b, a
 		}
 	}
 	return T("bin", op, a, b)
+}
+
+// iteEq: ite(c, x, y) == k for constant k, when every leaf of the chain is a constant (nil when not).
+func iteEq(t, k *Term) *Term {
+	if t.Op == "const" {
+		if t.Key() == k.Key() {
+			return tTrue
+		}
+		return tFalse
+	}
+	if t.Op != "ite" || len(t.Args) != 3 {
+		return nil
+	}
+	x, y := iteEq(t.Args[1], k), iteEq(t.Args[2], k)
+	if x == nil || y == nil {
+		return nil
+	}
+	c := t.Args[0]
+	// (c && x) || (!c && y)
+	return mkOr([]*Term{mkAnd([]*Term{c, x}), mkAnd([]*Term{Not(c), y})})
 }
 
 func Not(a *Term) *Term {
